@@ -308,15 +308,17 @@ outer:
 					packets  int
 				}{}
 				for _, s := range streamFactory.Streams {
-					if s.Flags&streams.StreamFlagsComplete != 0 {
-						continue
-					}
 					firstPacketTs := s.Packets[0].Timestamp
 					lastPacketTs := s.Packets[len(s.Packets)-1].Timestamp
 					if lastPacketTs.Before(tsTimeouted) {
-						timeoutedStreams++
+						if s.Flags&streams.StreamFlagsComplete == 0 {
+							timeoutedStreams++
+						}
 						continue
 					}
+					// a complete (closed) stream still receives the packets that follow
+					// within the inactivity timeout (last ack, retransmissions): the
+					// reassembler keeps the closed connection that long, so must we.
 					streamDuration := lastPacketTs.Sub(firstPacketTs)
 					if worstStreams[0].duration < streamDuration {
 						worstStreams[0].duration = streamDuration
